@@ -387,6 +387,50 @@ func famCodec(dir string, seed int64, tier string) {
 		}
 	}
 
+	// ---- large payloads: Go-side oracles only (the theorems cover every length; the model is
+	//      evaluated on lengths up to 16385 in the quick tier and 2^21 in the thorough tier) ----
+	bigLens := []int{1<<14 - 1, 1 << 14, 65535, 65536, 1<<20 - 1, 1 << 20, 1<<20 + 12345, 1<<21 - 1, 1 << 21, 1<<21 + 1}
+	if thorough {
+		bigLens = append(bigLens, 1<<24+7, 1<<28-1, 1<<28)
+	}
+	for i, n := range bigLens {
+		var t sb.Token
+		if i%2 == 0 {
+			t = sb.Token{Kind: strKinds[i%3], Value: string(payload(r, n))}
+		} else {
+			t = sb.Token{Kind: bytesKinds[i%2], Value: payload(r, n)}
+		}
+		ts := []sb.Token{{Kind: sb.KindInt, Value: 7}, t, {Kind: sb.KindNil}}
+		desc := fmt.Sprintf("big payload: kind=%d len=%d", t.Kind, n)
+		repEnc.count("big-len")
+		o0 := runEncode(ts, 0, 0)
+		o1 := runEncode(ts, 1, 0)
+		ln, e := runEncodedLen(ts)
+		repEnc.Evaluations += 3
+		if o0.err != nil || o1.err != nil || !bytes.Equal(o0.bytes, o1.bytes) {
+			repEnc.violate("C03", "writer-flavour-dependent", "io.Writer and io.ByteWriter received different bytes", desc)
+			continue
+		}
+		if e != nil || ln != len(o0.bytes) {
+			repEnc.violate("C02", "encoded-len", fmt.Sprintf("EncodedLen=%d (err %v) but %d bytes were written", ln, e, len(o0.bytes)), desc)
+		}
+		want := refEncodeLen(n)
+		if len(o0.bytes) != 9+1+1+want {
+			repEnc.violate("C03", "layout-length", fmt.Sprintf("%d bytes written, the layout prescribes %d", len(o0.bytes), 9+1+1+want), desc)
+		}
+		for _, fl := range []int{0, 1, 3, 4} {
+			if n > 1<<22 && fl == 3 {
+				continue
+			}
+			o := runDecode(o0.bytes, false, fl, false, r)
+			repDec.Evaluations++
+			if o.err != nil || !tokensExactEq(o.toks, ts) {
+				repDec.violate("C02", "roundtrip", fmt.Sprintf("Decode(Encode ts) != ts with reader %q (err %v)", readerFlavours[fl], o.err), desc)
+				break
+			}
+		}
+	}
+
 	// ---- truncations, reader faults, mutations of valid encodings ----
 	budget := 2500
 	if thorough {
@@ -581,6 +625,21 @@ func famCodec(dir string, seed int64, tier string) {
 	repEnc.write(dir)
 	repWf.write(dir)
 	repDec.write(dir)
+}
+
+// length of prefix + payload for a payload of n bytes, from the layout in the property text
+func refEncodeLen(n int) int {
+	if n < 128 {
+		return 1 + n
+	}
+	k := 0
+	for x := uint64(n); ; x >>= 7 {
+		k++
+		if x < 128 {
+			break
+		}
+	}
+	return 1 + k + n
 }
 
 func hostileCase(rep *Report, w *CaseWriter, in []byte, limit uint64, r *rand.Rand) {
